@@ -100,7 +100,11 @@ func (vm *VM) errIndexOutOfRange() runtimeError {
 	default:
 		panic("unexpected operation")
 	}
-	s := "runtime error: index out of range [" + strconv.Itoa(index) + "] with length " + strconv.Itoa(length)
+	s := "runtime error: index out of range [" + strconv.Itoa(index) + "]"
+	if index >= 0 {
+		// As gc does, the length is not reported for a negative index.
+		s += " with length " + strconv.Itoa(length)
+	}
 	return runtimeError(s)
 }
 
